@@ -214,7 +214,13 @@ def big_file_cases():
         big += ('r%d,"é€𝄞 %d","multi\r\nline",x\r\n' % (i, i)).encode()
         i += 1
     out.append(('200KiB', bytes(big)))
+    # many short records per stream chunk (tens of thousands of records delivered by one 'data' event)
+    out.append(('short-rows', b''.join(b'%d,a\n' % i for i in range(40000))))
+    out.append(('one-char-rows', b''.join(b'%c\r\n' % (97 + i % 26) for i in range(70000))))
     return out
+
+
+N_EXTRA_BIG = 3
 
 
 def shard_files(shard, nshards, tier, seed, scratch):
@@ -224,7 +230,7 @@ def shard_files(shard, nshards, tier, seed, scratch):
     try:
         cases = big_file_cases()
         if tier == 'quick':
-            cases = cases[::3] + cases[-1:]
+            cases = cases[:-N_EXTRA_BIG][::3] + cases[-N_EXTRA_BIG:]
         for name, data in cases:
             path = os.path.join(scratch, 'c20_big.csv')
             with open(path, 'wb') as f:
@@ -236,9 +242,10 @@ def shard_files(shard, nshards, tier, seed, scratch):
                 got_file = norm(drv.call(dict(cfg, cmd='read_csv', mode='file', path=path)))
                 got_bulk = norm(drv.call(dict(cfg, cmd='read_csv', mode='bulk', path=path)))
                 got_small = norm(drv.call(dict(cfg, cmd='read_csv', mode='file', path=path, high_water_mark=4099)))
-                stats.evaluations += 3
-                stats.nontrivial_counted += 2
-                for label, got in (('createReadStream-default', got_file), ('bulk', got_bulk), ('createReadStream-4099', got_small)):
+                got_huge = norm(drv.call(dict(cfg, cmd='read_csv', mode='file', path=path, high_water_mark=1 << 20)))
+                stats.evaluations += 4
+                stats.nontrivial_counted += 3
+                for label, got in (('createReadStream-default', got_file), ('bulk', got_bulk), ('createReadStream-4099', got_small), ('createReadStream-1MiB', got_huge)):
                     if got != exp:
                         key = ('files', label)
                         if key not in seen:
@@ -251,7 +258,7 @@ def shard_files(shard, nshards, tier, seed, scratch):
                                 d['first_diff'] = next((i for i, (x, y) in enumerate(zip(got[0], exp[0])) if x != y), None)
                             failures.append({'leg': 'files', 'clause': 'large-file-' + label, 'detail': d, 'case': {'kind': 'bigfile', 'name': name, 'policy': policy}})
             stats.bump('big-files')
-        stats.samples.append({'big_files': [n for n, _ in cases][:6], 'modes': ['fs.createReadStream (64 KiB chunks)', 'bulk', 'fs.createReadStream highWaterMark=4099']})
+        stats.samples.append({'big_files': [n for n, _ in cases][:6], 'modes': ['fs.createReadStream (64 KiB chunks)', 'bulk', 'fs.createReadStream highWaterMark=4099', 'fs.createReadStream highWaterMark=1MiB']})
     finally:
         drv.close()
     return {'stats': stats.export(), 'failures': failures}
